@@ -20,7 +20,7 @@ def sh(*a, **kw):
 
 head = sh('git', '-C', '/repo', 'log', '--format=%h', '-1').stdout.strip()
 rows = []
-only = set(sys.argv[1:])
+only = {n for a in sys.argv[1:] for n in sorted(os.listdir('seeded')) if n == a or n.startswith(a + '-')}
 for n in sorted(os.listdir('seeded')):
     d = os.path.join('seeded', n)
     if not os.path.isfile(os.path.join(d, 'patch.diff')) or (only and n not in only):
@@ -56,6 +56,14 @@ for n in sorted(os.listdir('seeded')):
     outcome = {1: 'caught', 0: 'MISSED (expected, see meta.json)' if expect_miss else 'MISSED'}.get(code, f'inconclusive({code})')
     rows.append((n, check, outcome, key))
     print(n, check, outcome, key[:60], flush=True)
+if only and os.path.exists('seeded/REGRESSION.md'):
+    # partial run: keep the rows of the changes not re-run
+    done = {r[0] for r in rows}
+    for line in open('seeded/REGRESSION.md'):
+        cells = [c.strip() for c in line.strip().strip('|').split(' | ')]
+        if len(cells) == 4 and re.match(r'C\d\d-\d+$', cells[0]) and cells[0] not in done:
+            rows.append(tuple(cells))
+    rows.sort()
 with open('seeded/REGRESSION.md', 'w') as f:
     f.write(f'# Seeded changes vs quick checks (tools/seed_regress.py, /repo {head}, seed 0)\n\n')
     f.write('Each change is applied to /repo, the quick check named in its meta.json is run, the change is reverted.\n\n')
